@@ -193,32 +193,41 @@ class Run:
         sc = self.sched
         if threading.current_thread() is not self._owner(sc.cur):
             return self.local  # not ours (should not happen)
+        fid = id(frame)
         if event == "line":
             ln = frame.f_lineno
             L = self.sites.lines
             name = frame.f_code.co_name
+            self._atomic_line.pop(fid, None)
+            np_end = self._np_frames.get(fid)
+            if np_end is not None and not (L.get("fail_with", (0, 0))[0] <= ln <= np_end):
+                del self._np_frames[fid]
+                sc.no_preempt -= 1
+            # yield BEFORE the statement, then emit the event and execute the whole line without a
+            # yield in between: the event is the statement's linearisation point
+            sc.yield_point()
             if name == "process_node":
                 if ln == L.get("readstop"):
                     self.ev("readstop", self.me())
+                    self._atomic_line[fid] = ln
                 elif ln == L.get("failblk"):
                     self.ev("failblk", self.me())
                     sc.no_preempt += 1
-                    frame.f_locals  # noqa
-                    self._np_frames[id(frame)] = L.get("fail_with", (ln, ln))[1]
+                    self._np_frames[fid] = L.get("fail_with", (ln, ln))[1]
                 elif ln == L.get("dec"):
                     self.ev("dec", self.me(), frame.f_locals.get("successor"))
             elif name == "run_function_on_graph" and ln == L.get("setstop"):
                 self.ev("setstop")
-            np_end = self._np_frames.get(id(frame))
-            if np_end is not None and not (L.get("fail_with", (0, 0))[0] <= ln <= np_end):
-                del self._np_frames[id(frame)]
+                self._atomic_line[fid] = ln
+            return self.local
+        if event == "return":
+            self._atomic_line.pop(fid, None)
+            if fid in self._np_frames:
+                del self._np_frames[fid]
                 sc.no_preempt -= 1
-        elif event == "return":
-            if id(frame) in self._np_frames:
-                del self._np_frames[id(frame)]
-                sc.no_preempt -= 1
-        if event in ("opcode", "line"):
-            sc.yield_point()
+        elif event == "opcode":
+            if self._atomic_line.get(fid) != frame.f_lineno:
+                sc.yield_point()
         return self.local
 
     def _owner(self, t):
@@ -228,6 +237,7 @@ class Run:
     def execute(self, graph, fn, worker_count, max_errors, scheduler, interrupt_at=None):
         rfg, sc, R = self.rfg, self.sched, self
         self._np_frames = {}
+        self._atomic_line = {}
         self._thr = {"main": threading.current_thread()}
         main = sc.register("main")
         sc.cur = main
